@@ -172,7 +172,8 @@ func c02WorkerBatches(c *core.Ctx, rule string) {
 
 func C02(c *core.Ctx) {
 	c.Explanation("C02: (R1) the operator functions of both with-reference CIGAR tables are interpreted on symbolic arguments and must equal the SAM specification for all nine operators (query row, reference row, and equal extension lengths, for every q, r, n); (R2) blockToPairwiseAlignment (getOneLinePlusRef, blockToSeqPair, flattening, N substitution) is interpreted on a bounded family of groups of one and two records (three start positions x fourteen CIGAR strings covering all operators, incl. insertions after =/X; pairs with insertions in one, the other or both records) against an independent construction of the pairwise alignment: insertion columns carry '-' in the reference row and the inserted bases in the query row, every reference base appears once and in order, the query row carries the projected base, '-' for deletions and N for uncovered positions; with --skip-insertions the query row is the toMultiAlign --pad row; names and input index are carried. The interpreter implements Go's append semantics (in-place when capacity allows), so writes through aliased record buffers are observed. (R5) the reference-coordinate cut is checked as in C15; (R6) output order as in C12.")
-	checkNoDeferInLoops(c, "R8") // one file per query: each is closed before the next is opened
+	checkNoDeferInLoops(c, "R8")                                                                // one file per query: each is closed before the next is opened
+	checkStdoutWriters(c, facts(c), "R9", "pkg/sam", "pkg/fastaio", "pkg/gfio", "pkg/encoding") // with -o stdout the pairs are the only thing on the output stream
 	checkArrivalOrderIndependence(c, "R6/reorder", "sam.writePairwiseAlignment")
 	c.Assumption("records of one query are non-conflicting: no two records insert at the same reference position (groups violating this are skipped)")
 	checkCigarTables(c, "R1", func(t cigarTable) bool { return t.withRef })
